@@ -241,8 +241,9 @@ def int_write_reqsign(rng, fs):
         for ty in INT_TYPES:
             lo, hi = int_range(ty)
             for v in (0, 1, 5, hi, lo, hi // 3, rng.randint(lo, hi)):
-                ops.append("wi %s %s %d -" % (ty, f, v))
+                # the documented-bound buffer ("-") for these formats is C09's business (known finding there)
                 ops.append("wi %s %s %d %d" % (ty, f, v, 300))
+                ops.append("wi %s %s %d %d" % (ty, f, v, 130))
     return ops
 
 
